@@ -77,10 +77,10 @@ def shardRawGo (limit : Nat) (al : Option Nat) (thr : Nat) : List α → Nat →
 def shardRaw (limit : Nat) (al : Option Nat) (thr : Nat) (ts : List α) : List (List α) :=
   shardRawGo size limit al thr [] 0 ts
 
-/-- `_shard_tensors` of `_safetensors/__init__.py` 115-134 (with a limit), AS FIXED by
-    proposed_fixes/D62.diff: `current_shard_size + nbytes > max and shards[-1]`.  (The unfixed
-    code tests `current_shard_size > 0`, which lets zero-size tensors share a shard with an
-    oversized one; see `C07_D62_witness`.) -/
+/-- `_shard_tensors` of `_safetensors/__init__.py` (with a limit):
+    `current_shard_size + nbytes > max and shards[-1]` (since fix D62, /repo bd663f8; before it
+    the code tested `current_shard_size > 0`, which let zero-size tensors share a shard with an
+    oversized one; see `shardStGoUnfixed` and `C07_D62_witness`). -/
 def shardStGo (limit : Nat) : List α → Nat → List α → List (List α)
   | cur, _, [] => [cur]
   | cur, sz, t :: rest =>
@@ -94,7 +94,8 @@ def shardSt (limit : Option Nat) (ts : List α) : List (List α) :=
   | none => [ts]
   | some l => shardStGo size l [] 0 ts
 
-/-- the unfixed safetensors sharder (`current_shard_size > 0`), kept only to state the defect -/
+/-- the safetensors sharder as it was before fix D62 (`current_shard_size > 0`), kept only to
+    state the defect -/
 def shardStGoUnfixed (limit : Nat) : List α → Nat → List α → List (List α)
   | cur, _, [] => [cur]
   | cur, sz, t :: rest =>
@@ -197,8 +198,8 @@ structure Init where
 deriving Repr, DecidableEq, Inhabited
 
 /-- the two lists built by `unload_from_model` (external_data.py 1041-1053), as positions into
-    the declaration-ordered initializer list.  String tensors are skipped (AS FIXED by
-    proposed_fixes/D63.diff; the unfixed code tries to write them and raises). -/
+    the declaration-ordered initializer list.  String tensors are skipped (fix D63, /repo
+    db4dfb4; before it the code tried to write them and raised). -/
 def splitRawGo (thr : Int) : Nat → List Init → List Nat × List Nat
   | _, [] => ([], [])
   | k, v :: rest =>
@@ -212,8 +213,8 @@ def splitRawGo (thr : Int) : Nat → List Init → List Nat × List Nat
 def splitRaw (thr : Int) (vs : List Init) : List Nat × List Nat := splitRawGo thr 0 vs
 
 /-- `_save_file` of the safetensors backend (199-208): `nbytes < threshold` is not saved.
-    AS FIXED by proposed_fixes/D60.diff (a skipped tensor that is external is loaded to memory,
-    like the raw backend does) and D63.diff (string tensors are skipped). -/
+    A skipped tensor that is external is loaded to memory like the raw backend does (fix D60,
+    /repo 8e6568a) and string tensors are skipped (fix D63, db4dfb4). -/
 def splitStGo (thr : Int) : Nat → List Init → List Nat × List Nat
   | _, [] => ([], [])
   | k, v :: rest =>
